@@ -74,12 +74,18 @@ fn dump(tcx: TyCtxt<'_>) -> ControlFlow<()> {
     let mut seen = BTreeSet::new();
     let mut adts = vec![];
     for item in rustc_public::all_local_items() {
-        if !item.has_body() {
-            continue;
-        }
         let did = rustc_public::rustc_internal::internal(tcx, item.def_id());
         let name = item.name();
         let span = item.span().diagnostic();
+        if !item.has_body() {
+            // trivial constants (`const X: &str = "..."`) have no MIR body but are printed by the pretty printer
+            if tcx.trivial_const(did).is_some() {
+                writeln!(f, "@@ITEM {}", json!({"name": name, "span": span, "generic": true, "trivial_const": true})).unwrap();
+                rustc_middle::mir::pretty::write_mir_pretty(tcx, Some(did), &mut f).unwrap();
+                writeln!(f, "@@END").unwrap();
+            }
+            continue;
+        }
         let rec = if item.requires_monomorphization() {
             json!({"name": name, "span": span, "generic": true})
         } else {
